@@ -40,6 +40,19 @@ impl quote::ToTokens for FieldName {
     }
 }
 
+/// Parse a tuple index. `syn::Index` (which the expansion builds from it) only
+/// represents indices below `u32::MAX`; anything larger is reported here instead
+/// of panicking there.
+fn parse_tuple_index(lit: &syn::LitInt) -> syn::Result<usize> {
+    let index: u32 = lit
+        .base10_parse()
+        .map_err(|_| syn::Error::new(lit.span(), "tuple index out of range"))?;
+    if index == u32::MAX {
+        return Err(syn::Error::new(lit.span(), "tuple index out of range"));
+    }
+    Ok(index as usize)
+}
+
 impl Parse for FieldName {
     /// Parses a field name, which can be either an identifier or a numeric index.
     ///
@@ -58,8 +71,7 @@ impl Parse for FieldName {
         if let Ok(lit) = fork.parse::<syn::LitInt>() {
             // Successfully parsed as number, consume from real input
             let _: syn::LitInt = input.parse()?;
-            let index = lit.base10_parse()?;
-            Ok(FieldName::Index(index))
+            Ok(FieldName::Index(parse_tuple_index(&lit)?))
         } else {
             // Try parsing as identifier
             input
@@ -295,7 +307,7 @@ impl FieldOperation {
         } else if input.peek(syn::LitInt) {
             // It's a tuple index like .0 or .1
             let lit_int: syn::LitInt = input.parse()?;
-            let index: usize = lit_int.base10_parse()?;
+            let index = parse_tuple_index(&lit_int)?;
             ops.push(FieldOperation::UnnamedField {
                 index,
                 span: dot_span,
@@ -312,12 +324,15 @@ impl FieldOperation {
                 ));
             };
 
-            let first_idx = first
-                .parse::<usize>()
-                .map_err(|_| syn::Error::new(dot_span, "Invalid numeric index in field access"))?;
-            let second_idx = second
-                .parse::<usize>()
-                .map_err(|_| syn::Error::new(dot_span, "Invalid numeric index in field access"))?;
+            let parse_idx = |text: &str| {
+                text.parse::<u32>()
+                    .ok()
+                    .filter(|idx| *idx < u32::MAX)
+                    .map(|idx| idx as usize)
+                    .ok_or_else(|| syn::Error::new(dot_span, "Invalid numeric index in field access"))
+            };
+            let first_idx = parse_idx(first)?;
+            let second_idx = parse_idx(second)?;
 
             // Push two sequential UnnamedField operations
             ops.push(FieldOperation::UnnamedField {
